@@ -78,6 +78,39 @@ func accessPath(v ssa.Value) (ssa.Value, string, bool) {
 	return base, n.Obj().Name() + "." + f, true
 }
 
+// elemPath returns (slice, index) if v is a load of an element of a slice or array (`bs[i]`).
+func elemPath(v ssa.Value) (ssa.Value, ssa.Value, bool) {
+	u, ok := v.(*ssa.UnOp)
+	if !ok || u.Op != token.MUL {
+		return nil, nil, false
+	}
+	ia, ok := u.X.(*ssa.IndexAddr)
+	if !ok {
+		return nil, nil, false
+	}
+	return ia.X, ia.Index, true
+}
+
+// elemsStored: the function of v assigns an element of a slice or array with elements of v's type (then two reads
+// of the same element need not see the same value).
+func elemsStored(v ssa.Value) bool {
+	in, ok := v.(ssa.Instruction)
+	if !ok || in.Parent() == nil {
+		return true
+	}
+	found := false
+	for _, g := range ssau.WithAnon(in.Parent()) {
+		ssau.Instrs(g, func(x ssa.Instruction) {
+			if st, isSt := x.(*ssa.Store); isSt {
+				if _, isIA := st.Addr.(*ssa.IndexAddr); isIA && types.Identical(st.Val.Type(), v.Type()) {
+					found = true
+				}
+			}
+		})
+	}
+	return found
+}
+
 // nonNilAt reports evidence that v is not nil at block b.
 func nonNilAt(v ssa.Value, b *ssa.BasicBlock, facts []flow.Fact, pair bool) string {
 	vb, vp, vIsPath := accessPath(v)
@@ -101,6 +134,14 @@ func nonNilAt(v ssa.Value, b *ssa.BasicBlock, facts []flow.Fact, pair bool) stri
 		if vIsPath && nonnil {
 			if xb, xp, ok := accessPath(x); ok && xb == vb && xp == vp {
 				return "nil test of the same field (" + vp + ")"
+			}
+		}
+		if nonnil {
+			// the same element of the same slice read again (`if bs[i] == nil { continue }; use(bs[i].f)`)
+			if vs, vi, ok := elemPath(v); ok {
+				if xs, xi, ok2 := elemPath(x); ok2 && xs == vs && xi == vi && !elemsStored(v) {
+					return "nil test of the same element"
+				}
 			}
 		}
 		if pair && isnil {
@@ -401,6 +442,14 @@ func Check(cfg Config, sources []Source) *Result {
 								fn := mc.Fn.(*ssa.Function)
 								for i, bd := range mc.Bindings {
 									if bd == ssa.Value(al) && i < len(fn.FreeVars) && inEngine(fn) {
+										// a variable that is assigned once, before the literal is made, and made where the
+										// assigned value is known not to be nil (`te, err := admit(); if err != nil { return }; go
+										// func() { use(te) }()`): what the literal reads is that value
+										if nstores == 1 && assignedOnce(al) && dominatesInstr(u, mc) {
+											if e2 := nonNilAt(v, mc.Block(), flow.FactsAt(mc.Block()), cfg.PairRule); e2 != "" {
+												continue
+											}
+										}
 										for _, r3 := range ssau.Referrers(fn.FreeVars[i]) {
 											if ld, ok := r3.(*ssa.UnOp); ok && ld.Op == token.MUL {
 												push(ld, it.src, it.chain, "via captured variable "+al.Comment)
@@ -547,6 +596,77 @@ func Check(cfg Config, sources []Source) *Result {
 		return a.Instr.Pos() < b.Instr.Pos()
 	})
 	return res
+}
+
+// assignedOnce: the local variable cell al is used for nothing but loads and stores in place in its function and
+// loads in the function literals that capture it (literals in literals too): no literal assigns it and its address
+// goes nowhere else.
+func assignedOnce(al *ssa.Alloc) bool {
+	var readOnly func(fv ssa.Value, depth int) bool
+	readOnly = func(fv ssa.Value, depth int) bool {
+		if depth > 4 {
+			return false
+		}
+		for _, r := range ssau.Referrers(fv) {
+			switch y := r.(type) {
+			case *ssa.DebugRef:
+			case *ssa.UnOp:
+				if y.Op != token.MUL {
+					return false
+				}
+			case *ssa.MakeClosure:
+				fn, ok := y.Fn.(*ssa.Function)
+				if !ok {
+					return false
+				}
+				for i, bd := range y.Bindings {
+					if bd == fv && (i >= len(fn.FreeVars) || !readOnly(fn.FreeVars[i], depth+1)) {
+						return false
+					}
+				}
+			default:
+				return false
+			}
+		}
+		return true
+	}
+	for _, r := range ssau.Referrers(al) {
+		switch y := r.(type) {
+		case *ssa.DebugRef:
+		case *ssa.UnOp:
+			if y.Op != token.MUL {
+				return false
+			}
+		case *ssa.Store:
+			if y.Addr != ssa.Value(al) || y.Val == ssa.Value(al) {
+				return false
+			}
+		case *ssa.MakeClosure:
+			fn, ok := y.Fn.(*ssa.Function)
+			if !ok {
+				return false
+			}
+			for i, bd := range y.Bindings {
+				if bd == ssa.Value(al) && (i >= len(fn.FreeVars) || !readOnly(fn.FreeVars[i], 0)) {
+					return false
+				}
+			}
+		default:
+			return false
+		}
+	}
+	return true
+}
+
+// dominatesInstr: instruction a is executed before instruction b on every way to b (same function).
+func dominatesInstr(a, b ssa.Instruction) bool {
+	if a.Block() == nil || b.Block() == nil || a.Parent() != b.Parent() {
+		return false
+	}
+	if a.Block() == b.Block() {
+		return flow.Index(a) < flow.Index(b)
+	}
+	return a.Block().Dominates(b.Block())
 }
 
 // mapElems: the values that engine code reads out of the map m (lookups and range values), following m through
